@@ -17,6 +17,7 @@ EXPLANATION = (
     "over arguments / positionals / subcommands / possible values in render.rs and lib.rs is filtered by is_hide_set "
     "(classification as in C12), siblings agree. R19.4 PANIC over all clap_mangen bodies reachable from its public API, and "
     "DET (no nondeterminism source). NOT decided: that every visible item is named."
+    ' R19.3c: the option sections are a partition of the visible arguments (no positional narrowing such as take_while/drain in _render_options_section).'
 )
 TRUSTED = ["rustc MIR + expanded AST", "clapfacts", "lib/strflow.py", "roff 0.2.1 source (text escaped, control args verbatim)", "audit/panic.tsv"]
 ASSUMPTIONS = ["a carriage return alone does not start a roff control line"]
@@ -222,6 +223,20 @@ def run(ctx):
     res.check(bool(bl) and all(mn.block_dominates(bl[0].bb, c.bb) for c in mn.calls() if c is not bl[0]), "R19.4", "B|man-new-builds", mn.where(),
               "Man::new calls cmd.build() before anything else", "Man::new no longer builds the command first")
 
+
+    # ---- R19.3c option sections are a PARTITION of the visible arguments: first those without a heading, then one `partition` per heading
+    # over everything that is left — any positional narrowing (take_while / take / skip / drain / find ...) assumes an order of the
+    # definitions and loses arguments when a heading is used for non-adjacent arguments
+    ros = fx.body("clap_mangen::Man::_render_options_section")
+    ro = [c for c in ros.calls_to(r"render::options$")]
+    res.floor("R19.3", "render::options calls in _render_options_section", len(ro), 2)
+    for c in ro:
+        e = expr(ros, c.args[1])
+        res.check(re.search(r"partition\(", e) is not None, "R19.3", "options-from-partition", c.where(), "rendered arguments are one side of a partition of the visible arguments",
+                  "_render_options_section renders %s: not a side of a `partition` of the visible arguments" % e[:100])
+    narrow = [c for t in tree(ros) for c in t.calls_to(r"Iterator>?::(take_while|skip_while|take|skip|nth|step_by|find|position|rposition|last|map_while)$", r"Vec(<[^>]*>)?::(drain|truncate|split_off|pop|remove|swap_remove|retain|dedup\w*)$")]
+    res.check(not narrow, "R19.3", "options-sections-cover-all", ros.where(), "no positional narrowing of the argument lists",
+              "_render_options_section selects arguments with %s: arguments of a heading that are not adjacent in definition order are rendered nowhere" % sorted(set(c.callee_q.rsplit("::", 1)[1] for c in narrow)))
 
     # ---- R19.2b the section predicates say exactly "there is a visible item" (a narrower test drops a section that has something to show)
     rd = fx.body("clap_mangen::Man::render")
